@@ -99,6 +99,29 @@ def case(ctx, rng, idx, state):
                          symmetrize=symmetrize, parallel=False, fout_name="c10", file_Klist_path=os.path.join(tmp, "klist"),
                          print_progress_step_time=1e9, **kw)
         mon.flush_to(ctx, witness=wit)
+        # ---- continue from an earlier completed iteration (restart_iteration=j): the weights of stored points change while possibly
+        # nothing new is evaluated (re-created children are absorbed by the stored ones) - the same identity must hold
+        if storage in ("allow_restart", "dump_results") and niter >= 2 and not deep:
+            j = int(rng.integers(0, niter))
+            mon2 = monitors.RunMonitor()
+            live2, cache2, hist2 = {}, {}, []
+            mon2.before_process.append(lambda K_list, it: live2.__setitem__("K_list", K_list))
+
+            def on_save2(resdict, i_iter):
+                expected, scale, nalive = runkit.weighted_sum(system, grid, calcs, live2["K_list"], symmetrize, cache=cache2)
+                hist2.append(dict(iteration=i_iter, nK=len(live2["K_list"]), alive=nalive))
+                for key in calcs:
+                    ctx.close("after_restart_from_earlier_iteration:running_result!=sum_K_factor*result_K", resdict.results[key].data,
+                              expected.results[key].data, rtol=1e-9, scale=scale[key], what=f"restart_iteration={j} iteration {i_iter} key {key}",
+                              witness=dict(case=wit, restart_iteration=j, history=list(hist2)))
+            mon2.on_savedata.append(on_save2)
+            with monitors.chdir(tmp), mon2:
+                wb.run(system, grid, calcs, adpt_num_iter=niter - j, adpt_mesh=adpt_mesh, adpt_fac=adpt_fac, use_irred_kpt=use_irred,
+                       symmetrize=symmetrize, parallel=False, fout_name="c10r", file_Klist_path=os.path.join(tmp, "klist"), restart=True,
+                       restart_iteration=j, print_progress_step_time=1e9, **kw)
+            for mech, msg, ww in mon2.violations:
+                ctx.violation(mech, msg, dict(monitor_witness=ww, case=wit, restart_iteration=j))
+            ctx.count("restart_from_earlier_iteration_histories")
         if len(captured) != niter + 1:
             ctx.violation("savedata_not_called_once_per_iteration", f"{len(captured)} captures for {niter + 1} iterations", wit)
         if captured:
@@ -149,5 +172,6 @@ if __name__ == "__main__":
         assumptions=["per-K results recomputed by the harness with the same calculators on fresh data objects",
                      "tolerance 1e-9 of sum_K |factor_K| max|result_K| (natural scale; never the judged value itself)"],
         required_counters=("mon:divide_calls", "storage_memory", "storage_allow_restart", "storage_dump_results", "storage_discard",
-                           "saved_files_reloaded", "mon:dump_result_calls", "mon:clear_result_calls", "histories_reaching_weights_below_1e-8"),
+                           "saved_files_reloaded", "mon:dump_result_calls", "mon:clear_result_calls", "histories_reaching_weights_below_1e-8",
+                           "restart_from_earlier_iteration_histories"),
     )
